@@ -14,6 +14,8 @@ import (
 	"github.com/vimeo/dials"
 	"github.com/vimeo/dials/ptrify"
 	"github.com/vimeo/dials/sourcewrap"
+	"github.com/vimeo/dials/tagformat"
+	"github.com/vimeo/dials/tagformat/caseconversion"
 
 	"verifharness/internal/coqfmt"
 	"verifharness/internal/driver"
@@ -74,6 +76,25 @@ func (w watchSrc) Watch(ctx context.Context, t *dials.Type, wa dials.WatchArgs) 
 	return nil
 }
 
+// wrapInner: the inner source as it is, or behind the other half of sourcewrap - a transforming source (no
+// manglers) or tagformat's reformatting source.  A wrapper must be a Watcher exactly when what it wraps is
+// one, or the Blank treats a plain source as the owner of its watch slot.  Deterministic in (ops, i).
+func wrapInner(s dials.Source, ops []string, i int) dials.Source {
+	h := uint32(2166136261)
+	for _, o := range ops {
+		for _, c := range []byte(o) {
+			h = (h ^ uint32(c)) * 16777619
+		}
+	}
+	switch (h + uint32(i)*7) % 4 {
+	case 1:
+		return sourcewrap.NewTransformingSource(s)
+	case 2:
+		return tagformat.ReformatDialsTagSource(s, caseconversion.DecodeGoTags, caseconversion.EncodeLowerSnakeCase)
+	}
+	return s
+}
+
 func class(err error) string {
 	if err != nil {
 		return "(Err 0)"
@@ -129,13 +150,13 @@ func run(raw json.RawMessage) driver.Result {
 				var e error
 				if s.watcher {
 					opTerms[i] = fmt.Sprintf("OpSet (SrcWatcher %s %s)", vterm, coqfmt.Bool(!s.watchErr))
-					e = blank.SetSource(octx, watchSrc{staticSrc{s}})
+					e = blank.SetSource(octx, wrapInner(watchSrc{staticSrc{s}}, in.Ops, i))
 					if s.wa != nil {
 						live = s
 					}
 				} else {
 					opTerms[i] = fmt.Sprintf("OpSet (SrcStatic %s)", vterm)
-					e = blank.SetSource(octx, staticSrc{s})
+					e = blank.SetSource(octx, wrapInner(staticSrc{s}, in.Ops, i))
 				}
 				ret = class(e)
 			case "par":
